@@ -294,13 +294,26 @@ class World:
             names.add(a.arg)
         return names
 
+    def loops_of(self, fnode):
+        """the loops of a function in SOURCE order (ordinal k = k-th `for`/`while` keyword in the text);
+        loops of nested function definitions belong to those functions"""
+        out = []
+
+        def visit(n):
+            for ch in ast.iter_child_nodes(n):
+                if isinstance(ch, (ast.FunctionDef, ast.Lambda)) and ch is not fnode:
+                    continue
+                if isinstance(ch, (ast.For, ast.While)):
+                    out.append(ch)
+                visit(ch)
+        visit(fnode)
+        out.sort(key=lambda x: (x.lineno, x.col_offset))
+        return out
+
     def loop_ordinal(self, fnode, node):
-        k = 0
-        for n in ast.walk(fnode):
-            if isinstance(n, (ast.For, ast.While)):
-                if n is node:
-                    return k
-                k += 1
+        for k, n in enumerate(self.loops_of(fnode)):
+            if n is node:
+                return k
         return None
 
     def loop_hook(self, interp, node, it, env):
